@@ -74,7 +74,7 @@ func genC08(rt *rapid.T, gates bool, knownProbe bool, col *Collector) upCase {
 			kinds = append(kinds, "conformant", "conformantLatePoll", "conformantSendAtTick", "conformantSecondDuringSwitch", "eagerUpgradeInsideFlush", "conformantSlowUpgradeListener")
 		}
 		if gates {
-			kinds = append(kinds, "heldProbeBurst")
+			kinds = append(kinds, "heldProbeBurst", "twoCandidatesAtOnce")
 		}
 		if ncand > 0 {
 			kinds = append(kinds, "pkt", "pkt", "pkt", "pkt", "drop", "toTimeout")
@@ -110,6 +110,8 @@ func genC08(rt *rapid.T, gates bool, knownProbe bool, col *Collector) upCase {
 			st.Tr = rapid.SampledFrom(trs).Draw(rt, l+".tr")
 			st.Sid = rapid.SampledFrom([]string{"own", "own", "own", "own", "unknown", "closed"}).Draw(rt, l+".sid")
 			ncand++
+		case "twoCandidatesAtOnce":
+			ncand += 2
 		case "heldProbeBurst":
 			st.Tr = rapid.SampledFrom(trs).Draw(rt, l+".tr")
 			st.Pkt = rapid.SampledFrom([]string{"pingOther", "pong", "message", "noop", "garbage"}).Draw(rt, l+".burst")
@@ -372,7 +374,7 @@ func runC08(c upCase) (fail string, stats map[string]bool) {
 	}
 	uw.pc, uw.sr = pc, w.Get(pc.Sid)
 	for _, st := range c.Steps {
-		if st.Kind == "probeEarly" || st.Kind == "heldProbeBurst" {
+		if st.Kind == "probeEarly" || st.Kind == "heldProbeBurst" || st.Kind == "twoCandidatesAtOnce" {
 			uw.g = InstallGates(nil)
 			defer uw.g.Uninstall()
 			break
@@ -675,6 +677,68 @@ func runC08(c upCase) (fail string, stats map[string]bool) {
 			if f := conformant(st.Tr, false); f != "" {
 				return what + ": " + f, stats
 			}
+		case "twoCandidatesAtOnce":
+			// two candidates for the session arrive at the same moment: the first is past the server's "already
+			// upgrading?" test (held at the yield point behind it) when the second one is tested. At most one
+			// candidate is entertained at a time: only one of them may get its probe answered
+			if uw.g == nil {
+				break
+			}
+			mk := func() *upCand {
+				c := &upCand{tr: "websocket", own: true, openedAt: w.now()}
+				c.wc = &WSClient{W: w, O: ClientOpts{Rev: uw.c.Rev, EIO: eio}, Sid: pc.Sid}
+				return c
+			}
+			free := !uw.sessClosed && uw.upgrading == nil && uw.cur == nil
+			gp := GatePoint{"server.upgrade.admitted", uw.g.Count("server.upgrade.admitted")}
+			uw.g.mu.Lock()
+			uw.g.plan[gp] = true
+			uw.g.mu.Unlock()
+			a, b := mk(), mk()
+			a.wc.Start()
+			Settle()
+			heldA := false
+			for _, p := range uw.g.Parked() {
+				if p == gp {
+					heldA = true
+				}
+			}
+			b.wc.Start()
+			Settle()
+			uw.g.mu.Lock()
+			delete(uw.g.plan, gp)
+			uw.g.mu.Unlock()
+			uw.g.Release(gp)
+			Settle()
+			a.wc.Pump()
+			b.wc.Pump()
+			a.send(ctlD(tPing, "probe"))
+			b.send(ctlD(tPing, "probe"))
+			Settle()
+			ponged := 0
+			var winner *upCand
+			for _, c := range []*upCand{a, b} {
+				for _, p := range c.recv() {
+					if p.Type == tPong {
+						ponged++
+						winner = c
+					}
+				}
+			}
+			uw.cands = append(uw.cands, a, b)
+			if free && heldA {
+				stats["two-candidates-past-the-admission-test-together"] = true
+			}
+			if ponged > 1 {
+				return fmt.Sprintf("%s: two candidates for one session arrived at the same moment and both had their probe answered: at most one candidate may be entertained at a time", what), stats
+			}
+			if !free && ponged > 0 {
+				return fmt.Sprintf("%s: a candidate was entertained although the session was closed / upgrading / upgraded", what), stats
+			}
+			if winner != nil {
+				winner.admitted, winner.alive, winner.probed = true, true, true
+				uw.upgrading = winner
+			}
 		case "heldProbeBurst":
 			// the candidate does not wait for the probe pong: probe, an unexpected packet and the upgrade packet
 			// arrive while the pong is still being written (its writer goroutine is held at its first statement)
@@ -970,7 +1034,7 @@ func TestC08Upgrade(t *testing.T) {
 	if !knownProbe {
 		req = append(req, "probe-before-listeners")
 	}
-	req = append(req, "burst-while-probe-pong-is-being-written", "second-candidate-during-the-switch", "perMessageDeflate-configured", "upgrade-packet-while-a-flush-is-in-progress", "upgrade-listener-busy-across-the-attempt's-timeout")
+	req = append(req, "burst-while-probe-pong-is-being-written", "second-candidate-during-the-switch", "perMessageDeflate-configured", "upgrade-packet-while-a-flush-is-in-progress", "upgrade-listener-busy-across-the-attempt's-timeout", "two-candidates-past-the-admission-test-together")
 	col.RequireClasses(t, req...)
 }
 
